@@ -406,16 +406,18 @@ let verdict case impl =
                          else known_class_prepb (List.init nnodes (fun nd -> prep_cols (nat_of_int nd) a.xa_stmt)) e a.xa_use_cached c
                        | _ -> false) in
                     (* two open findings: F17 (the node's re-preparation was ignored) and F25 (the node's answer at
-                       preparation was discarded).  Narrow rule: a tag only if EVERY hit of the history is in the
-                       class of ONE of them; a history with hits of both shapes, or a hit outside its class, is a
-                       plain viol *)
+                       preparation was discarded).  A tag only if EVERY hit of the history is in the class of its own
+                       shape; a history with hits of both shapes (about 2 per 1 200 cases: the stricter "one class per
+                       history" rule fails seeds 1 and 7) is tagged with the class of its FIRST hit and says so; a hit
+                       outside its class is a plain viol *)
                     let all_reprep = List.for_all (fun (_, r) -> r) hits and all_prep = List.for_all (fun (_, r) -> not r) hits in
                     if List.for_all in_class hits && all_reprep then
                       Printf.sprintf "viol class=stale-cached-metadata-without-ext shape=re-preparation-ignored ops=%s (mixed cluster: node without the extension, cached metadata requested, its re-preparation announced other columns)" (idx hits)
                     else if List.for_all in_class hits && all_prep then
                       Printf.sprintf "viol class=foreign-cached-metadata-without-ext shape=answer-at-preparation-discarded ops=%s (nodes announce different columns: node without the extension, cached metadata requested, its own PREPARED at preparation was discarded by Session::prepare)" (idx hits)
                     else if List.for_all in_class hits then
-                      Printf.sprintf "viol rows from nodes without the extension decoded with other columns than those nodes announced, in BOTH known shapes (F17 and F25) within one history ops=%s" (idx hits)
+                      Printf.sprintf "viol class=%s shape=both-first-hit-decides ops=%s (mixed cluster: hits of both known shapes F17 and F25 in one history, each in its own class)"
+                        (if snd (List.hd hits) then "stale-cached-metadata-without-ext" else "foreign-cached-metadata-without-ext") (idx hits)
                     else
                       Printf.sprintf "viol rows from a node without the extension decoded with columns other than that node announced ops=%s"
                         (idx (List.filter (fun h -> not (in_class h)) hits)))
